@@ -29,6 +29,7 @@ use crate::{
         boolean::{or::bool_or, step::DefaultBitStep},
         context::{Context, TEST_DZKP_STEPS, UpgradableContext, dzkp_validator::DZKPValidator},
         ipa_prf::boolean_ops::{
+            integer_mul,
             addition_sequential::{integer_add, integer_sat_add},
             comparison_and_subtraction_sequential::{compare_geq, compare_gt, integer_sub},
         },
@@ -126,7 +127,7 @@ pub fn open_bits<S: VecShare<N>, const N: usize>(bits: &BitDecomposed<S>) -> Vec
 // the circuits
 // ------------------------------------------------------------------------------------------------
 
-const VEC_OPS: [&str; 6] = ["add", "sat_add", "gt", "or", "and", "xor_free"];
+const VEC_OPS: [&str; 7] = ["add", "sat_add", "gt", "or", "and", "xor_free", "mul"];
 const SCALAR_OPS: [&str; 2] = ["sub", "geq"];
 
 macro_rules! vec_circuit {
@@ -146,6 +147,7 @@ macro_rules! vec_circuit {
                     Ok(s)
                 }
                 "sat_add" => integer_sat_add::<_, DefaultBitStep, $n>(ctx, rid, x, y).await,
+                "mul" => integer_mul::<_, DefaultBitStep, $n>(ctx, rid, x, y).await,
                 "gt" => Ok(BitDecomposed::new([compare_gt::<_, DefaultBitStep, $n>(ctx, rid, x, y).await?])),
                 "or" => bool_or::<_, DefaultBitStep, _, $n>(ctx, rid, x, y.iter()).await,
                 "and" => {
@@ -196,6 +198,11 @@ fn reference(op: &str, x: u128, y: u128, wx: usize, wy: usize) -> u128 {
         "gt" => u128::from(x > y_adj),
         "geq" => u128::from(x >= y_adj),
         "sub" => x.wrapping_sub(y_adj) & mask(wx),
+        // x unsigned, y in two's complement (sign-extended to the output width wx + wy)
+        "mul" => {
+            let sext = if wy < 128 && (y >> (wy - 1)) & 1 == 1 { y | !mask(wy) } else { y };
+            x.wrapping_mul(sext) & mask(wx + wy)
+        }
         "or" => x | y,
         "and" => x & y,
         _ => x ^ y,
@@ -236,6 +243,10 @@ impl Scenario for CircScenario {
         let wx = if exhaustive { r.range(1, 4) } else { r.pick(&[1usize, 2, 3, 5, 8, 16, 20, 32, 64, 100, 120]) };
         // unequal operand widths only where the code documents support for them
         let wy = if ["or", "and", "xor_free"].contains(&op) || exhaustive || r.chance(2, 3) { wx } else { r.pick(&[1usize, 3, 8, 16, 32, 64, 120]) };
+        let (wx, wy, exhaustive) = if op == "mul" {
+            let e = !self.tampered && r.chance(1, 3);
+            if e { let w = r.range(1, 3); (w, w, true) } else { (r.pick(&[1usize, 2, 3, 5, 8, 12, 16]), r.pick(&[1usize, 2, 3, 4, 8, 12]), false) }
+        } else { (wx, wy, exhaustive) };
         let malicious = self.tampered || (![3usize, 8].contains(&lanes) && r.chance(1, 2));
         // records: enough to enumerate all operand pairs when exhaustive
         let pairs = if exhaustive { 1usize << (2 * wx) } else { 0 };
